@@ -152,6 +152,165 @@ def lengths(run, rt):
     run.section("lengths", cases=n)
 
 
+class _Piece:
+    """Partition i of a synthetic source whose data respects the user-asserted divisions (picklable, tokenizable)."""
+
+    def __init__(self, divs):
+        self.divs = tuple(divs)
+
+    def __call__(self, i):
+        import pandas as pd
+        lo, hi = self.divs[i], self.divs[i + 1]
+        last = i == len(self.divs) - 2
+        idx = sorted({lo, max(lo, hi - 1)} | ({hi} if last else set()))
+        return pd.DataFrame({"x": [float(v) for v in idx], "k": [v % 3 for v in idx]}, index=idx)
+
+    def __dask_tokenize__(self):
+        return ("c06-piece", self.divs)
+
+
+def divisions_layer(run, rt):
+    """T-LAYER `divisions`: the real _divisions() formulas against the extracted Divisions.v model on the same
+    (divisions, selection / boundaries / operand list); on a disagreement the real claim is tested on the really
+    computed partitions with the verified `truthfulb` (the search for a failing input)."""
+    import os
+    import shutil
+    import tempfile
+    import pandas as pd
+    import dask_expr._expr as E
+    from dask_expr._repartition import RepartitionToFewer
+    from dask_expr.io.io import FusedIO
+    sx, m = common.sx, common.Model()
+    rng = run.rng
+    quick = run.tier == "quick"
+    cases = []          # (family, tag, request, real claim as python value, thunk -> collection)
+
+    def norm(d):
+        d = tuple(d)
+        return None if (len(d) == 0 or d[0] is None) else [int(v) for v in d]
+
+    def source(divs):
+        return rt.dx.from_map(_Piece(divs), list(range(len(divs) - 1)), divisions=tuple(divs), meta=_Piece(divs)(0).iloc[:0])
+
+    def rand_divs(n, start=None):
+        v = rng.randint(-5, 5) if start is None else start
+        out = [v]
+        for _ in range(n):
+            v += rng.randint(1, 4)
+            out.append(v)
+        return out
+
+    for _ in range(40 if quick else 600):
+        n = rng.randint(1, 7)
+        divs = rand_divs(n)
+        df = source(divs)
+        # (a) partition selections, logical and pushed into the source, and nodes derived from the selection
+        for _ in range(3):
+            if rng.random() < 0.45:
+                sel = sorted(rng.sample(range(n), rng.randint(1, n)))
+            else:
+                sel = [rng.randrange(n) for _ in range(rng.randint(1, n + 2))]
+            req = "(partitions_divisions %s %s)" % (sx(divs), sx(sel))
+            for nm, th in (("logical", lambda: df.partitions[sel]), ("pushed into the source", lambda: rt.dx.new_collection(df.partitions[sel].expr.simplify())),
+                           ("cumsum of the selection, simplified", lambda: rt.dx.new_collection(df.partitions[sel].cumsum().expr.simplify())),
+                           ("elementwise of the selection, simplified", lambda: rt.dx.new_collection((df.partitions[sel] + 1).expr.simplify())),
+                           ("filter of the selection, lowered", lambda: rt.dx.new_collection((lambda q: q[q.x > 0])(df.partitions[sel]).expr.optimize(fuse=False))),
+                           ("repartition(npartitions=len) of the selection", lambda: df.partitions[sel].repartition(npartitions=len(sel)))):
+                c = try_(th)
+                if c[0] == "ok":
+                    cases.append(("partitions", "%s sel=%s divs=%s" % (nm, sel, divs), req, ("opt", len(sel) + 1, try_(lambda: norm(c[1].divisions))), c[1]))
+        # (b) head / tail
+        for k in sorted({-1, 1, n, rng.randint(1, n)}):
+            h = df.head(2, npartitions=k, compute=False)
+            cases.append(("head", "head(npartitions=%d) divs=%s" % (k, divs), "(head_divisions %s %d)" % (sx(divs), n if k == -1 else k), ("list", try_(lambda: norm(h.divisions))), h))
+            low = try_(lambda: h.expr.lower_completely())
+            if low[0] == "ok":
+                for node in low[1].walk():
+                    if type(node).__name__ == "BlockwiseHead":
+                        fd = norm(node.frame.divisions)
+                        if fd is not None:
+                            cases.append(("blockwise head", "BlockwiseHead over %s, %d partitions" % (fd, len(node._partitions)),
+                                          "(bhead_divisions %s %d)" % (sx(fd), len(node._partitions)), ("list", try_(lambda: norm(node._divisions()))), rt.dx.new_collection(node)))
+        t = df.tail(2, compute=False)
+        cases.append(("tail", "tail divs=%s" % (divs,), "(tail_divisions %s)" % sx(divs), ("list", try_(lambda: norm(t.divisions))), t))
+        # (c) repartition to fewer partitions: divisions taken at the boundaries
+        for k in sorted({1, max(1, n - 1), rng.randint(1, n)}):
+            r = df.repartition(npartitions=k)
+            low = try_(lambda: r.expr.lower_completely())
+            if low[0] == "ok":
+                for node in low[1].walk():
+                    if isinstance(node, RepartitionToFewer):
+                        bs = [int(b) for b in node._partitions_boundaries]
+                        cases.append(("fewer", "repartition(npartitions=%d) divs=%s boundaries=%s" % (k, divs, bs), "(fewer_divisions %s %s)" % (sx(norm(node.frame.divisions)), sx(bs)),
+                                      ("list", try_(lambda: norm(node._divisions()))), rt.dx.new_collection(node)))
+        # (d) concat along the rows: separated, touching, overlapping operands
+        frames, ds = [df], [divs]
+        for _ in range(rng.randint(1, 2)):
+            d2 = rand_divs(rng.randint(1, 3), start=ds[-1][-1] + rng.choice([-2, 0, 0, 1, 3]))
+            ds.append(d2)
+            frames.append(source(d2))
+        c = try_(lambda: rt.dx.concat(frames))
+        if c[0] == "ok":
+            cases.append(("concat", "concat of %s" % (ds,), "(concat_divisions %s)" % sx(ds), ("opt", sum(len(d) - 1 for d in ds) + 1, try_(lambda: norm(c[1].divisions))), c[1]))
+    # (e) fused multi-file parquet reads (the fusion step depends on the column projection), with partition selections
+    tmp = tempfile.mkdtemp(prefix="c06_", dir=common.BUILD)
+    try:
+        nfiles = 9
+        pdf = pd.DataFrame({c: range(nfiles * 4) for c in "abcdef"}, index=pd.RangeIndex(0, nfiles * 4, name="i"))
+        rt.dx.from_pandas(pdf, npartitions=nfiles).to_parquet(tmp)
+        for cols in (["a"], ["a", "b"], ["a", "b", "c"], ["a", "b", "c", "d", "e"]):
+            for sel in (None, [0, 1, 2, 3, 4], [1, 3, 4, 6, 7, 8], [2, 8], [5]):
+                rd = rt.dx.read_parquet(tmp, calculate_divisions=True)
+                q = (rd if sel is None else rd.partitions[sel])[cols] + 1          # fusion of reads is decided by a parent (_tune_up)
+                o = try_(lambda: q.optimize(fuse=False).expr)
+                if o[0] != "ok":
+                    continue
+                for node in o[1].walk():
+                    if isinstance(node, FusedIO):
+                        inner = node.operand("_expr")
+                        full = norm(inner._divisions())
+                        psel = [int(v) for v in inner._partitions]
+                        import math
+                        step = min(math.ceil(1 / inner._fusion_compression_factor), math.ceil(math.sqrt(len(psel))), 100)
+                        buckets = [[int(v) for v in b] for b in node._fusion_buckets]
+                        cases.append(("fusion buckets", "columns=%s sel=%s step=%d" % (cols, sel, step), "(fusion_buckets %s %d)" % (sx(psel), step), ("raw", buckets), None))
+                        if full is not None:
+                            cases.append(("fused", "columns=%s sel=%s buckets=%s" % (cols, sel, buckets), "(fused_divisions %s %s)" % (sx(full), sx(buckets)),
+                                          ("list", try_(lambda: norm(node._divisions()))), rt.dx.new_collection(node)))
+        ans = m.batch([c[2] for c in cases])
+        fam = {}
+        for (family, tag, req, real, coll), a in zip(cases, ans):
+            fam[family] = fam.get(family, 0) + 1
+            run.count(("divisions-layer", family, tag))
+            model = common.parse_sx(a)
+            if real[0] == "opt":
+                exp = None if model == "none" else [int(v) for v in model[1]]
+                got = real[2]
+            elif real[0] == "raw":
+                exp, got = [[int(v) for v in b] for b in model], ("ok", real[1])
+            else:
+                exp, got = [int(v) for v in model], real[1]
+            if got[0] == "raise":
+                run.broken_tie("T-LAYER divisions (%s)" % family, {"case": tag, "model": a[:200], "real": "raises " + str(got[1])[:200]})
+                continue
+            if got[1] != exp:
+                # search: is the real claim wrong for the really computed partitions?
+                witness = None
+                if coll is not None and got[1] is not None:
+                    parts = try_(lambda: exec_expr(coll.expr.lower_completely()))
+                    if parts[0] == "ok":
+                        tb = m.batch(["(truthfulb %s %s)" % (sx(got[1]), sx([[int(v) for v in p.index] for p in parts[1]]))])[0]
+                        if tb != "true":
+                            witness = "reports divisions %s, computed partitions hold index values %s" % (got[1], [[int(v) for v in p.index] for p in parts[1]])
+                if witness:
+                    run.violation("%s [%s]: %s" % (family, tag, witness), {"kind": "divisions-layer", "family": family, "case": tag})
+                else:
+                    run.broken_tie("T-LAYER divisions (%s)" % family, {"case": tag, "model": exp, "real": got[1]})
+        run.section("divisions_layer", cases=len(cases), by_family=fam)
+    finally:
+        shutil.rmtree(tmp, ignore_errors=True)
+
+
 def classify(v):
     return None
 
@@ -183,6 +342,7 @@ def run(run):
             run.violation(v["what"], {"kind": "collection", "tag": tag}, finding=classify(v))
     run.section("collections", checked=n)
     lengths(run, rt)
+    divisions_layer(run, rt)
     quick = run.tier == "quick"
     progcheck.run_programs(run, {"C06"}, 120 if quick else 3000, profile="l1", own={"C06"}, with_steps=False)
     progcheck.run_programs(run, {"C06"}, 80 if quick else 2000, profile="l2", own={"C06"}, with_steps=False)
